@@ -55,7 +55,7 @@ func keyExec(ops []string) []string {
 	return res
 }
 
-var tsPool = []uint64{0, 1, 2, 9, 10, 11, 99, 100, 1 << 31, 1<<63 - 1, 1 << 63, 1<<64 - 1}
+var tsPool = []uint64{0, 1, 2, 9, 10, 11, 99, 100, 1<<31 - 1, 1 << 31, 1<<32 - 1, 1 << 32, 1<<63 - 1, 1 << 63, 1<<63 + 1, 1<<64 - 1}
 
 func pickTs(r *rand.Rand) uint64 {
 	if r.Intn(3) == 0 {
@@ -499,6 +499,18 @@ func wmGen(r *rand.Rand, n, length int) []Case {
 		open := map[uint64]int{}
 		var cur uint64
 		nwait := 0
+		// the small indices of the case are mapped, order-preserving, into a region of the uint64 range: around 2^31, 2^32,
+		// 2^63, the very top, or spread so that they lie on both sides of 2^63 (signed/unsigned and width conversions)
+		mp := func(t uint64) uint64 { return t }
+		switch c % 7 {
+		case 2:
+			base := []uint64{1<<31 - 3, 1<<32 - 3, 1<<63 - 3, ^uint64(0) - uint64(nts) - 8}[r.Intn(4)]
+			mp = func(t uint64) uint64 { return base + t }
+			tags["indices-near-a-power-of-two"] = true
+		case 5:
+			mp = func(t uint64) uint64 { return t * (1 << 59) }
+			tags["indices-on-both-sides-of-2^63"] = true
+		}
 		for i := 0; i < length; i++ {
 			ts := uint64(r.Intn(nts))
 			if r.Intn(4) == 0 {
@@ -510,29 +522,29 @@ func wmGen(r *rand.Rand, n, length int) []Case {
 				if open[ts] > 1 {
 					tags["repeated-index"] = true
 				}
-				ops = append(ops, fmt.Sprintf("b %d", ts))
+				ops = append(ops, fmt.Sprintf("b %d", mp(ts)))
 			case x < 16:
 				if open[ts] == 0 {
 					tags["done-without-begin"] = true
 				} else {
 					open[ts]--
 				}
-				ops = append(ops, fmt.Sprintf("d %d", ts))
+				ops = append(ops, fmt.Sprintf("d %d", mp(ts)))
 			case x < 18:
 				// burst of > 100 marks
 				var ms []string
 				for j := 0; j < 120+r.Intn(100); j++ {
 					t2 := uint64(r.Intn(nts + 3))
 					if r.Intn(2) == 0 {
-						ms = append(ms, fmt.Sprintf("b:%d", t2))
+						ms = append(ms, fmt.Sprintf("b:%d", mp(t2)))
 					} else {
-						ms = append(ms, fmt.Sprintf("d:%d", t2))
+						ms = append(ms, fmt.Sprintf("d:%d", mp(t2)))
 					}
 				}
 				tags["burst>100"] = true
 				ops = append(ops, "burst "+strings.Join(ms, ","))
 			default:
-				ops = append(ops, fmt.Sprintf("b %d", ts), fmt.Sprintf("d %d", ts))
+				ops = append(ops, fmt.Sprintf("b %d", mp(ts)), fmt.Sprintf("d %d", mp(ts)))
 				i++
 			}
 			if r.Intn(40) == 0 {
@@ -542,11 +554,11 @@ func wmGen(r *rand.Rand, n, length int) []Case {
 			if r.Intn(12) == 0 && nwait < 6 {
 				// a waiter on an index that may or may not be begun/finished itself
 				nwait++
-				ops = append(ops, fmt.Sprintf("wait %d %d", nwait, r.Intn(nts+4)))
+				ops = append(ops, fmt.Sprintf("wait %d %d", nwait, mp(uint64(r.Intn(nts+4)))))
 				tags["waiter"] = true
 			}
 			if r.Intn(25) == 0 {
-				ops = append(ops, fmt.Sprintf("waitctx %d", r.Intn(nts+4)))
+				ops = append(ops, fmt.Sprintf("waitctx %d", mp(uint64(r.Intn(nts+4)))))
 			}
 			if r.Intn(5) == 0 {
 				cur += uint64(r.Intn(2))
